@@ -38,7 +38,8 @@ NOT_DECIDED = [
     "platform strftime behaviour for years < 1000 (outside the quantifier)",
 ]
 ASSUMPTIONS = [
-    "instants lie in 1970-01-01..2100-01-01 UTC; PV strings carry microsecond "
+    "instants lie in 1900-01-01..2100-01-01 UTC (whole seconds since the "
+    "epoch may be negative); PV strings carry microsecond "
     "precision, span times in nanoseconds carry a sub-microsecond remainder "
     "0..999 ns (the property's quantifier)",
 ]
